@@ -117,7 +117,7 @@ impl FromBytes for c13::Case {
             }
             build.push(tree_op(src));
         }
-        c13::Case { k, build, start, kind, script }
+        c13::Case { k, build, start, kind, script, chain: 0 }
     }
 }
 
@@ -150,7 +150,7 @@ pub fn poly_spec_bytes(src: &mut ByteSrc, max_dim: usize, max_rows: usize) -> Po
     for _ in 0..m {
         rows.push(row_spec(src, n));
     }
-    PolySpec { dim: n, anchors, rows }
+    PolySpec { dim: n, anchors, rows, scales: Vec::new() }
 }
 
 impl FromBytes for c15::Case {
